@@ -104,7 +104,14 @@ func main() {
 	verbose := flag.Bool("v", false, "verbose")
 	timeout := flag.Int("timeout", 0, "solver timeout seconds (default 10 quick / 60 thorough)")
 	outdir := flag.String("outdir", "", "where evidence/ and replays/ are written (default: the verif root)")
+	auditFlag := flag.Bool("audit", false, "audit the trusted strings contracts against the real library (random conformance)")
 	flag.Parse()
+	if *auditFlag {
+		initScratch()
+		code := runAudit(*verif)
+		cleanupScratch()
+		os.Exit(code)
+	}
 	debug.SetGCPercent(150)
 	if pf := os.Getenv("VERIF_PROF"); pf != "" {
 		if f, err := os.Create(pf); err == nil {
